@@ -1,5 +1,6 @@
 import Mastverif.Lemmas.Loads
 import Mastverif.Lemmas.History
+import Mastverif.Lemmas.CursorLoads
 /-!
 # C16 — point operations read only the search path (property theorems)
 
@@ -11,7 +12,12 @@ well-formed tree of height `h`:
   `2·(h+1)` the property allows;
 * the descent and merge part of a delete reads at most `2·h + 1 ≤ 2·(h+1)` nodes (the loads of
   a height reduction are excluded by the property: "that does not change the height");
-* opening and cloning read at most the top node (`rootLoad`).
+* opening and cloning read at most the top node (`rootLoad`);
+* navigation (the property's catch-all clause): after any placement and any walk, a further
+  `Forward` / `Backward` step reads at most `h` nodes (`C16_cursor_step`), and a `Ceil` placement
+  reads at most `h` nodes below the top node that `Cursor()` loaded (`C16_ceil`) — never a number
+  proportional to the tree.  `newLoads` / `ceilLoads` agree name by name with the Go code's loads
+  (family `reads`, ops `cl …`).
 -/
 namespace Mast.Tree
 open T
@@ -59,7 +65,67 @@ example : WF (fun k => k % 2) 1
     (cons true (cons true nil 2 0 (last true nil)) 3 0 (last true (cons true nil 4 0 (last true nil)))) := by
   simp [WF, isEmptyRow, T.toList]
 
+/-- a `Ceil` placement on a fresh cursor reads at most one node per level below the top -/
+theorem C16_ceil (layer : Nat → Nat) (root : T) (d k fuel : Nat) (hw : WF layer d root) :
+    (Cursor.ceilLoads k fuel [(root, 0)]).length ≤ d := by
+  have h1 := Cursor.ceilLoads_le k fuel root 0 []
+  have h2 := lvl_le_of_WF layer root d hw
+  omega
+
+/-- after any placement and any walk, one more step reads at most one node per level below the top -/
+theorem C16_cursor_step (layer : Nat → Nat) (root : T) (d fuel : Nat) (hw : WF layer d root)
+    (hsrt : Sorted (T.toList root)) (hne : isEmptyRow root = false) (hf : lvl root < fuel)
+    (pl : Cursor.Place) (ms : List Cursor.Move) (m : Cursor.Move) :
+    let p := ms.foldl (Cursor.stepPath fuel) (Cursor.place fuel root pl)
+    (Cursor.newLoads p (Cursor.stepPath fuel p m)).length ≤ d := by
+  intro p
+  have hs := solid_of_WF layer root d hw
+  have hn : root.isNil = false := by cases root <;> simp_all [WF, isNil]
+  have hrel := Cursor.walk_rel root fuel hf (ms ++ [m]) _ _ (Cursor.place_rel root fuel hs hsrt hf hn hne pl)
+  rw [List.foldl_append, List.foldl_append] at hrel
+  simp only [List.foldl_cons, List.foldl_nil] at hrel
+  have hl := lvl_le_of_WF layer root d hw
+  -- the path after the step is a chain from the root (or empty)
+  generalize hq : Cursor.stepPath fuel p m = q at hrel ⊢
+  generalize Cursor.stepIdx (T.toList root).length (List.foldl (Cursor.stepIdx (T.toList root).length) (Cursor.placeIdx (T.toList root) pl) ms) m = st at hrel
+  cases st with
+  | none =>
+    have : q = [] := hrel
+    subst this
+    have := Cursor.newLoads_length_le p []
+    simp only [List.length_nil, Nat.zero_sub, Nat.le_zero_eq] at this
+    omega
+  | some n =>
+    have hpos : Cursor.Pos root q n := hrel
+    have := Cursor.newLoads_le_height root p q hpos.chain
+    omega
+
+/-- a `Min` / `Max` placement on a fresh cursor reads at most one node per level below the top -/
+theorem C16_min_max (layer : Nat → Nat) (root : T) (d fuel : Nat) (hw : WF layer d root)
+    (hsrt : Sorted (T.toList root)) (hne : isEmptyRow root = false) (hf : lvl root < fuel) (pl : Cursor.Place) :
+    (Cursor.newLoads [(root, 0)] (Cursor.place fuel root pl)).length ≤ d := by
+  have hs := solid_of_WF layer root d hw
+  have hn : root.isNil = false := by cases root <;> simp_all [WF, isNil]
+  have hrel := Cursor.place_rel root fuel hs hsrt hf hn hne pl
+  have hl := lvl_le_of_WF layer root d hw
+  generalize Cursor.place fuel root pl = q at hrel ⊢
+  generalize Cursor.placeIdx (T.toList root) pl = st at hrel
+  cases st with
+  | none =>
+    have : q = [] := hrel
+    subst this
+    have := Cursor.newLoads_length_le [(root, 0)] []
+    simp only [List.length_nil, Nat.zero_sub, Nat.le_zero_eq] at this
+    omega
+  | some n =>
+    have hpos : Cursor.Pos root q n := hrel
+    have := Cursor.newLoads_le_height root [(root, 0)] q hpos.chain
+    omega
+
 end Mast.Tree
+#print axioms Mast.Tree.C16_min_max
+#print axioms Mast.Tree.C16_ceil
+#print axioms Mast.Tree.C16_cursor_step
 #print axioms Mast.Tree.C16_open_clone
 #print axioms Mast.Tree.C16_get
 #print axioms Mast.Tree.C16_insert
